@@ -10,11 +10,18 @@
    and `GLeader j t' log` when j becomes leader holding `log`; leader_completeness says every GLeader that
    comes after a leader's GCommit has `log_at log idx = e`.
 
-   No conditional theorem (`~ known_class -> leader_completeness`) is proved: it needs the log-matching and
-   leader-completeness invariants of a repaired protocol.  What is machine-checked is the refutation, split by
-   cause; `classes h` = (double vote, stale vote counted, ack from diverged log, old-term commit, ack below voted term). *)
+   What is machine-checked:
+   * the refutation, split by cause; `classes h` = (double vote, stale vote counted, ack from diverged log,
+     old-term commit, ack below voted term), plus a THIRD log-replication class found while attempting the
+     conditional proof, `commit-without-quorum` (RaftLog.v);
+   * the CONDITIONAL THEOREM `C29_partial` for the code in /repo (rr_fixed): if none of the three log-replication
+     classes occurs, every entry committed by a leader of term t is in the log of every later leader of a HIGHER
+     term; `C29_partial_literal` gives the literal statement under one more hypothesis that excludes a harmless
+     situation (a stale candidate becomes Leader of an OLDER term after the commit), and
+     `C29_literal_refuted_by_late_leader` shows that this hypothesis cannot be dropped: the literal statement is
+     stronger than Raft's Leader Completeness and fails in a history that is fine. *)
 From Coq Require Import NArith List.
-From Agdb Require Import Raft RaftWitness RaftProofs.
+From Agdb Require Import Raft RaftWitness RaftProofs RaftLog RaftLogProofs RaftLogMatch RaftLogLC RaftLogCA.
 Import ListNotations.
 Open Scope N_scope.
 
@@ -46,3 +53,88 @@ Theorem C29_refuted_ack_below_vote :
     election_safety h /\ classes h = (false, false, false, false, true) /\ ~ leader_completeness h.
 Proof. exact C29_refuted_ack_below_vote. Qed.
 Print Assumptions C29_refuted_ack_below_vote.
+
+(* ------------------------------------------------------------------ a THIRD log-replication class (RaftLog.v)
+   `commit_noquorum_b rv size evs` (KnownClass commit-without-quorum): a Leader raised its commit index over an
+   index at which fewer than size/2+1 nodes of its term hold its entry — commit() counts rows of the peer table
+   that are not acknowledgements of the current term (rows are never reset on election, update_node writes them
+   from the peer's own requests, response() accepts acknowledgements of any term).
+   Every revision: a 5-node history with one leader per term in which NONE of the five classes of `classes` occurs
+   ends with a new leader that lacks a leader-committed entry (corpus/C29/commit_noquorum.txt). *)
+Theorem C29_refuted_commit_noquorum : forall rv,
+  exists size evs, let h := c_hist (run rv size evs) in
+    size <> 1 /\ election_safety h /\ classes h = (false, false, false, false, false) /\
+    commit_noquorum_b rv size evs = true /\ ~ leader_completeness h.
+Proof. exact RaftLogProofs.C29_refuted_commit_noquorum. Qed.
+Print Assumptions C29_refuted_commit_noquorum.
+
+(* hence "no acknowledgement from a diverged log and no old-term commit" does NOT imply the property *)
+Theorem C29_two_classes_not_enough : forall rv,
+  ~ (forall size evs, size <> 1 ->
+       ack_diverged_b (c_hist (run rv size evs)) = false -> old_term_commit_b (c_hist (run rv size evs)) = false ->
+       leader_completeness (c_hist (run rv size evs))).
+Proof. exact two_classes_not_enough_C29. Qed.
+Print Assumptions C29_two_classes_not_enough.
+
+(* ------------------------------------------------------------------ the CONDITIONAL THEOREM
+   PROVED for the repaired election code (rr_fixed = the code in /repo), every cluster size other than 1 and every
+   adversarial event list (proof: RaftLogWf.v, RaftLogMatch.v, RaftLogHand.v, RaftLogLC.v — log matching, then the
+   inductive invariant LC; C27_election_safety and the election invariants J, K are used at every step):
+
+   if none of the THREE log-replication classes occurs in the run
+        ack-from-diverged-log   ack_diverged_b (c_hist ..) = false
+        old-term-commit         old_term_commit_b (c_hist ..) = false
+        commit-without-quorum   commit_noquorum_b rr_fixed size evs = false
+   then an entry committed by a leader of term t is in the log of every node that becomes leader later FOR A HIGHER
+   TERM (Raft's Leader Completeness).  So these three classes are the only ways raft.rs (with the C27 repairs)
+   can lose a leader-committed entry to a leader of a higher term. *)
+Theorem C29_partial : forall size evs,
+  size <> 1 ->
+  ack_diverged_b (c_hist (run rr_fixed size evs)) = false ->
+  old_term_commit_b (c_hist (run rr_fixed size evs)) = false ->
+  commit_noquorum_b rr_fixed size evs = false ->
+  forall h1 h2 i t idx e j t' log,
+    c_hist (run rr_fixed size evs) = h1 ++ GCommit i true t idx e :: h2 -> In (GLeader j t' log) h2 -> t < t' ->
+    log_at log idx = e.
+Proof. exact RaftLogCA.C29_partial_stmt. Qed.
+Print Assumptions C29_partial.
+
+(* The LITERAL full statement (`leader_completeness`: EVERY later GLeader, whatever its term) needs one more
+   hypothesis, which excludes a situation that is NOT a defect: a stale candidate of an older term collects its
+   delayed votes and becomes Leader of that older term after the commit (it cannot commit anything: every member of
+   a quorum has a higher term).  `late_leader_b h` = some GLeader of a term <= t follows a leader's commit of term t. *)
+Theorem C29_partial_literal : forall size evs,
+  size <> 1 ->
+  ack_diverged_b (c_hist (run rr_fixed size evs)) = false ->
+  old_term_commit_b (c_hist (run rr_fixed size evs)) = false ->
+  commit_noquorum_b rr_fixed size evs = false ->
+  RaftLogLC.late_leader_b (c_hist (run rr_fixed size evs)) = false ->
+  leader_completeness (c_hist (run rr_fixed size evs)).
+Proof. exact RaftLogCA.C29_partial_literal_stmt. Qed.
+Print Assumptions C29_partial_literal.
+
+(* and that hypothesis cannot be dropped: a 3-node history without any of the six classes in which node 1 becomes
+   Leader of term 1 after node 0 (term 2) has committed — the literal statement of C29 is stronger than Raft's
+   property and fails in a history that is harmless *)
+Theorem C29_literal_refuted_by_late_leader :
+  exists size evs, size <> 1 /\
+    ack_diverged_b (c_hist (run rr_fixed size evs)) = false /\
+    old_term_commit_b (c_hist (run rr_fixed size evs)) = false /\
+    commit_noquorum_b rr_fixed size evs = false /\
+    ~ leader_completeness (c_hist (run rr_fixed size evs)).
+Proof. exact RaftLogCA.C29_literal_refuted_stmt. Qed.
+Print Assumptions C29_literal_refuted_by_late_leader.
+
+(* non-vacuity: the fault-free 3-node history `wlog_ok` (node 0 elected, two entries replicated to and committed on
+   all three nodes, leader commits recorded) satisfies every hypothesis *)
+Example C29_partial_nonvacuous :
+  (ack_diverged_b (c_hist (run rr_fixed 3 RaftLogMatch.wlog_ok)) = false /\
+   old_term_commit_b (c_hist (run rr_fixed 3 RaftLogMatch.wlog_ok)) = false /\
+   commit_noquorum_b rr_fixed 3 RaftLogMatch.wlog_ok = false) /\
+  RaftLogLC.late_leader_b (c_hist (run rr_fixed 3 RaftLogMatch.wlog_ok)) = false /\
+  map n_commit (c_nodes (run rr_fixed 3 RaftLogMatch.wlog_ok)) = [2; 2; 2] /\
+  leader_completeness_b (c_hist (run rr_fixed 3 RaftLogMatch.wlog_ok)) = true /\
+  existsb (fun g => match g with GCommit _ true _ _ _ => true | _ => false end)
+          (c_hist (run rr_fixed 3 RaftLogMatch.wlog_ok)) = true.
+Proof. exact RaftLogCA.nonvacuous_stmt. Qed.
+Print Assumptions C29_partial_nonvacuous.
